@@ -50,6 +50,21 @@ CLAIMED = {
             "For every seeded base document (four container types, JSON and CBOR) all truncation offsets and all structural mutations of the document tree are enumerated, plus seeded byte damage; each mutated document is deserialised (a third through a faulty reader). Verdicts: panic/hang; Ok(graph) that violates mirror/symmetry, lists a non-member, or contains a node or edge the document does not declare (independent strict parse); Ok although a listed edge names an undeclared key.",
             "Trusted: the independent strict parse of the mutated document into plain tuples. Documents that cannot be read as (nodes, edges) at all are only checked for no-panic and well-formedness of an Ok result.",
             "DESIGN.md §4 C13"),
+    "C18": ("container", "exploration",
+            "deterministic simulation: seeded histories of container calls interleaved with edge operations, under simulator-owned hash seeds (container iteration order, several instances), checked call by call against a map model and the reference multigraph",
+            "Each of the four containers is driven through seeded histories (insert of fresh and present keys and of a distinct node object with a present key, remove, get, index, contains, len, is_empty, to_vec, iter, roots/leaves/orphans, both DOT exports with seeded attribute callbacks, rebuilding as a new instance with another hash seed) interleaved with edge operations made through container handles; every call is compared with a BTreeMap model, views with the reference multigraph, DOT text is parsed into node and edge statements.",
+            "Trusted: the map model and the DOT statement parser in sim/gsim/src/engines/container.rs.",
+            "DESIGN.md §4 C18"),
+    "C19": ("lifetime", "exploration",
+            "deterministic simulation of handle lifetime: drop placement (order, and thread in the sync flavours) chosen by the simulator; drop-counting payload registry checked after every drop and at the end",
+            "Seeded construction histories (cycles, self-loops, parallel edges), handles taken from every source (clones, iterated edges, paths, cycles, found nodes, orderings, containers, to_vec, scc), then one drop at a time in a simulator-chosen order; after each drop no value of a node with a live handle has been released and held results stay usable; at the end every node value and every edge-value instance has been released exactly once.",
+            "Trusted: the payload registry (sim/gsim/src/payload.rs). Cross-thread drops are sequential; racing reference counts are not simulated.",
+            "DESIGN.md §4 C19"),
+    "C15": ("twin", "exploration",
+            "deterministic simulation used as a differential harness: the same seeded call history and the same simulated hash seed on a plain flavour and its sync twin, event logs diffed call by call, minimised replayable history",
+            "One seeded single-threaded call sequence over the whole API common to both flavours is executed on digraph and sync_digraph (resp. ungraph and sync_ungraph) and the results (keys, values, errors, traversal output, canonicalised container-ordered output and serialised form) are compared call by call. Detects one textual copy drifting from its twin; decides nothing about the algorithms themselves.",
+            "By the property's own restriction there is no schedule or fault: the simulator contributes the history, the hash seam and minimisation. Panic messages are not compared.",
+            "DESIGN.md §4 C15"),
 }
 
 NOT_APPLICABLE = {
